@@ -49,6 +49,7 @@ func genTemplateFamilies(cw *caseWriter, r *rng, n int) {
 	for it := 0; it < n; it++ {
 		var ts []jsonline.Template
 		var ops, obs []string
+		reach := map[int]map[int]bool{} // reach[i][j]: template j was attached somewhere below template i
 		snapshot := func() string {
 			parts := make([]string, len(ts))
 			for i, t := range ts {
@@ -80,6 +81,33 @@ func genTemplateFamilies(cw *caseWriter, r *rng, n int) {
 				j := r.intn(len(ts))
 				if j == i {
 					j = (i + 1) % len(ts)
+				}
+				// never a template below itself (were templates linked instead of copied, that would be a loop)
+				if reach[j] == nil {
+					reach[j] = map[int]bool{}
+				}
+				if reach[i] == nil {
+					reach[i] = map[int]bool{}
+				}
+				if reach[j][i] {
+					i, j = j, i
+				}
+				if reach[j][i] || i == j {
+					ops = append(ops, fmt.Sprintf("create %d", i))
+					obs = append(obs, snapshot())
+					continue
+				}
+				reach[i][j] = true
+				for k2 := range reach[j] {
+					reach[i][k2] = true
+				}
+				for _, m := range reach {
+					if m[i] {
+						m[j] = true
+						for k2 := range reach[j] {
+							m[k2] = true
+						}
+					}
 				}
 				guard(func() { ts[i].WithRow(name, ts[j]) })
 				ops = append(ops, fmt.Sprintf("withrow %d K:%s %d", i, hx([]byte(name)), j))
